@@ -183,6 +183,58 @@ def build_harness(cmd, timeout=900):
     return rc == 0, out, binp
 
 
+def translate_source():
+    """T1: runs go/translate on $VERIF_REPO's working tree. The output directory is named after the hash of
+    everything the translation reads (source files of the listed packages, site table, translator), so the
+    generated model always corresponds to the source as it is now; an existing directory is re-used."""
+    tdir = os.path.join(VERIF, "go", "translate")
+    spec = json.load(open(os.path.join(tdir, "sites.json")))
+    h = hashlib.sha1()
+    for f in ("main.go", "sites.json", "go.mod"):
+        h.update(open(os.path.join(tdir, f), "rb").read())
+    for f in ("theories/Common/GoInt.v", "theories/Common/Base.v"):
+        h.update(open(os.path.join(COQ, f), "rb").read())
+    pk = sorted(set(spec["packages"]) | set(s["pkg"] for s in spec["sites"]))
+    for rel in pk:
+        for fn in sorted(glob.glob(os.path.join(REPO, rel, "*.go"))):
+            if fn.endswith("_test.go"):
+                continue
+            h.update(fn[len(REPO):].encode())
+            h.update(open(fn, "rb").read())
+    h.update(open(os.path.join(REPO, "go.mod"), "rb").read())
+    gendir = os.path.join(BUILD, "gen", h.hexdigest()[:16])
+    with Lock("gen"):
+        rp = os.path.join(gendir, "report.json")
+        if os.path.exists(rp) and os.path.exists(os.path.join(gendir, "Exprs.vo")):
+            return gendir, json.load(open(rp))
+        os.makedirs(os.path.join(BUILD, "bin"), exist_ok=True)
+        binp = os.path.join(BUILD, "bin", "vtranslate")
+        rc, out = sh(["go", "build", "-o", binp, "."], cwd=tdir, timeout=600, env=GOENV)
+        if rc != 0:
+            raise RuntimeError("go build of go/translate failed: " + out[-2000:])
+        os.makedirs(gendir, exist_ok=True)
+        rc, out = sh([binp, REPO, os.path.join(tdir, "sites.json"), gendir], cwd=REPO, timeout=600, env=GOENV)
+        if rc != 0:
+            raise RuntimeError("go/translate failed on %s: %s" % (REPO, out[-2000:]))
+        ok, log = coq_make(["theories/Common/GoInt.vo"])
+        if not ok:
+            raise RuntimeError("Common/GoInt.v does not build: " + log[-1500:])
+        for f in ("Consts.v", "Exprs.v"):
+            rc, o2 = sh(["timeout", "600", "coqc", "-Q", "theories", "Ergo", "-Q", gendir, "ErgoGen", os.path.join(gendir, f)], cwd=COQ, timeout=630)
+            if rc != 0:
+                try:
+                    os.remove(rp)
+                except OSError:
+                    pass
+                raise RuntimeError("generated %s is not accepted by Coq: %s" % (f, o2[-2000:]))
+        # keep the few most recent generated models only
+        olds = sorted(glob.glob(os.path.join(BUILD, "gen", "*")), key=os.path.getmtime)
+        for o in olds[:-8]:
+            if o != gendir:
+                sh(["rm", "-rf", o])
+        return gendir, json.load(open(rp))
+
+
 def run_harness(binp, args, timeout=600, env=None):
     e = dict(GOENV)
     if env:
@@ -345,6 +397,70 @@ class Check:
             if pr["closed"] < pr["asked"]:
                 self.broken.append({"kind": "axioms", "what": "only %d of %d Print Assumptions are closed" % (pr["closed"], pr["asked"])})
         return ok and pr["ok"]
+
+    # ---- T1: translation of the source + tie theorems ------------------------------
+    def translate(self, ties):
+        """Regenerate Consts.v / Exprs.v from $VERIF_REPO's current source (go/translate) and re-check
+        the committed tie theorems coq/tie/<T>.v against them. A tie that no longer checks is a broken
+        proof obligation (the model's formulas / constants are no longer those of the source)."""
+        try:
+            gendir, rep = translate_source()
+        except Exception as e:
+            self.broken.append({"kind": "translation", "what": "translation of %s failed" % REPO, "detail": str(e)[-2500:]})
+            return False
+        self.cov["translation"] = {"generated_from": REPO, "constants": rep.get("constants"), "site_occurrences": rep.get("site_occurrences"),
+                                   "sites": rep.get("sites"), "ties": {}}
+        files = ["tie/%s.v" % t for t in ties]
+        deps = set()
+        for f in files:
+            txt = open(os.path.join(COQ, f)).read()
+            for m in re.finditer(r"From\s+Ergo\s+Require\s+(?:Import\s+|Export\s+)?([\w.'\s]+?)\.(?:\s|$)", txt):
+                for mod in m.group(1).split():
+                    deps.add("theories/" + mod.replace(".", "/") + ".vo")
+        okb, logb = coq_make(sorted(deps))
+        if not okb:
+            self.broken.append({"kind": "proof", "what": "Coq build of the models the tie theorems speak about failed", "detail": logb[-2000:]})
+            return False
+
+        def one(t):
+            od = os.path.join(gendir, "out_%d" % os.getpid())
+            os.makedirs(od, exist_ok=True)
+            out_vo = os.path.join(od, "%s.vo" % t)
+            rc, out = sh(["timeout", "600", "coqc", "-Q", "theories", "Ergo", "-Q", gendir, "ErgoGen", "-o", out_vo, "tie/%s.v" % t],
+                         cwd=COQ, timeout=630)
+            for ext in (".vo", ".vok", ".vos", ".glob"):
+                try:
+                    os.remove(out_vo[:-3] + ext)
+                except OSError:
+                    pass
+            try:
+                os.rmdir(od)
+            except OSError:
+                pass
+            return t, rc, out
+
+        allok = True
+        with ThreadPoolExecutor(max_workers=8) as ex:
+            for t, rc, out in ex.map(one, ties):
+                n, names, forbidden = count_obligations(["tie/%s.v" % t])
+                txt = strip_comments(open(os.path.join(COQ, "tie/%s.v" % t)).read())
+                asked = len(re.findall(r"Print\s+Assumptions", txt))
+                closed = out.count("Closed under the global context")
+                self.cov["obligations"] += n
+                ok = rc == 0 and closed == asked and not forbidden
+                if ok:
+                    self.cov["discharged"] += n
+                self.cov["theorems"] += [x.split(":")[1] for x in names if ":tie_" in x]
+                self.cov["translation"]["ties"][t] = {"ok": ok, "theorems": n, "print_assumptions_closed": closed}
+                if not ok:
+                    allok = False
+                    m = re.search(r'File "([^"]+)", line (\d+)[^\n]*\n((?:.*\n?){1,14})', out)
+                    self.broken.append({"kind": "translation-tie",
+                                        "what": "tie theorem file coq/tie/%s.v no longer checks against the model regenerated from %s "
+                                                "(the formulas / constants of the source are no longer those of the hand-written model)" % (t, REPO),
+                                        "detail": (m.group(0) if m else out[-1500:]) + ("; forbidden: %s" % forbidden if forbidden else "")})
+        self.cov["checker_cmd"] += " && go/translate <repo> -> build/gen/<hash>/{Consts,Exprs}.v && coqc coq/tie/{%s}.v" % ",".join(ties)
+        return allok
 
     # ---- harness + cases ----------------------------------------------------------
     def harness(self, cmd, args, timeout=600, env=None):
